@@ -402,6 +402,13 @@ class Repo:
             c._mro = res
         return c._mro
 
+    def meth(self, c: ClassInfo, name: str) -> FuncInfo:
+        """The method `name` as class `c` sees it (own or inherited); a vanished anchor is an analysis error."""
+        fi = self.lookup_method(c, name)
+        if fi is None:
+            raise AnalysisError(f"anchor {c.qual}.{name} not found (own or inherited)")
+        return fi
+
     def lookup_method(self, c: ClassInfo, name: str, after: ClassInfo | None = None) -> FuncInfo | None:
         mro = self.mro(c)
         if after is not None:
